@@ -202,6 +202,7 @@ def claim_drop_unlinks(cx, res, kf):
 
     def h_as_cons_mut(engine, st, fr, callee, argv, m):
         some = z3.Bool("more_cells_%d" % next(engine.fresh))
+        st.events.append(("more", some))
         return S.mk_option(some, Ref(("V", Opaque("Cons", "later", {}))))
     eng.stubs = [(re.compile(r"^Cons::(car|cdr)$"), h_carcdr), (re.compile(r"^Cons::take$"), h_take), (re.compile(r"^Cons::cdr_mut$"), h_cdr_mut),
                  (re.compile(r"^Value::as_cons_mut$"), h_as_cons_mut),
@@ -259,6 +260,14 @@ def claim_drop_unlinks(cx, res, kf):
                 seen["loop"] += 1
                 if takes[0][1] != "self":
                     res.must_be_unsat(pc, "Cons::drop: the cell being dropped is not emptied first", onm)
+                mores = [e for e in st.events if e[0] == "more"]
+                if not mores:
+                    res.must_be_unsat(pc, "Cons::drop returns after emptying the cell without looking for further cells", onm)
+                else:
+                    # it may stop only when the chain has ended; the cell taken last must itself have been asked
+                    res.must_be_unsat(pc + [mores[-1][1]], "Cons::drop stops unlinking while cells remain (the rest goes to the recursive drop glue)", onm)
+                    if len(takes) > len(mores):
+                        res.must_be_unsat(pc, "Cons::drop: a cell is taken off without checking what follows it", onm)
     for k, n in seen.items():
         res.vacuity.append(("Cons::drop reaches %s" % k, n > 0))
 
